@@ -1310,34 +1310,39 @@ def family(F, root):
     return res
 
 
-def value_sources(body, local, depth=3, _seen=None):
+def value_sources(body, local, depth=3, _seen=None, _pending=()):
     """where the value in `local` is made: list of (body, block, stmt|term) for aggregates, constants and foreign calls,
-    looking through moves/copies, `?` (Try::branch + payload projection), Ok(..) wrappers and the return values of crate
-    functions (depth-limited)."""
+    looking through moves/copies, `?` (Try::branch + payload projection), Ok(..) wrappers, the return values of crate
+    functions (depth-limited) and tuple packing (a value read as field N of a tuple is followed into element N of the
+    tuple aggregate it was packed in, also across a helper's return value)."""
     _seen = _seen if _seen is not None else set()
     out = []
-    stack = [local]
+    stack = [(local, tuple(_pending))]
     while stack:
-        l = stack.pop()
-        if (body.path, l) in _seen:
+        l, pend = stack.pop()
+        if (body.path, l, pend) in _seen:
             continue
-        _seen.add((body.path, l))
+        _seen.add((body.path, l, pend))
         for (bi, si, kind, x) in body.defs().get(l, []):
             if kind == 'assign':
                 r = x['r']
                 if r['k'] in ('use', 'cast') and op_place(r['a'][0]) is not None:
-                    stack.append(op_place(r['a'][0])[0])
+                    pl = op_place(r['a'][0])
+                    more = tuple(int(e[2:]) for e in pl[1:] if isinstance(e, str) and re.match(r'^\.#\d+$', e))
+                    stack.append((pl[0], pend + tuple(reversed(more))))
                 elif r['k'] in ('use', 'cast'):
                     out.append((body, bi, x))
                 elif r['k'] == 'agg' and r['ak'] in ('Adt:std::result::Result::Ok', 'Adt:std::ops::ControlFlow::Continue') and r['a'] and op_place(r['a'][0]) is not None:
-                    stack.append(op_place(r['a'][0])[0])
+                    stack.append((op_place(r['a'][0])[0], pend))
+                elif r['k'] == 'agg' and str(r['ak']).startswith('Tuple') and pend and pend[-1] < len(r['a']) and op_place(r['a'][pend[-1]]) is not None:
+                    stack.append((op_place(r['a'][pend[-1]])[0], pend[:-1]))
                 elif r['k'] in ('ref', 'copyderef'):
-                    stack.append(r['p'][0])
+                    stack.append((r['p'][0], pend))
                 else:
                     out.append((body, bi, x))
             elif kind == 'call':
                 if call_matches(x, ['std::ops::Try::branch']) and x['a'] and op_local(x['a'][0]) is not None:
-                    stack.append(op_local(x['a'][0]))
+                    stack.append((op_local(x['a'][0]), pend))
                     continue
                 cb = None
                 for n in call_names(x):
@@ -1345,7 +1350,7 @@ def value_sources(body, local, depth=3, _seen=None):
                         cb = body.facts.body(n)
                         break
                 if cb is not None and depth > 0 and cb.path != body.path:
-                    out += value_sources(cb, 0, depth - 1, _seen)
+                    out += value_sources(cb, 0, depth - 1, _seen, pend)
                 else:
                     out.append((body, bi, x))
     return out
@@ -1659,4 +1664,36 @@ def result_err_targets(body, call_block):
             for v, tg in zip(tt['vals'], tt['ts']):
                 if v == 1:
                     res.append(tg)
+    return res
+
+
+def closure_fields(F, names, owner=None, depth=4):
+    """struct fields read anywhere in the closures among `names` (and the closures those create, transitively): what a predicate
+    written as an iterator chain (`queue.iter().any(|c| c.indexed.values().any(|s| s.used_trees.contains(h)))`) looks at"""
+    res = set()
+    todo = [n for n in names if '{closure' in n and F.body(n) is not None]
+    seen = set()
+    while todo and depth > 0:
+        nxt = []
+        for n in todo:
+            if n in seen:
+                continue
+            seen.add(n)
+            b = F.body(n)
+            for blk in b.blocks:
+                for st in blk['s']:
+                    if st['k'] != 'assign':
+                        continue
+                    pls = [st['p']] + ([st['r'].get('p')] if st['r'].get('p') else []) + [op_place(a) for a in st['r'].get('a', []) if op_place(a)]
+                    for pl in pls:
+                        res |= set(e for e in pl[1:] if isinstance(e, str) and e.startswith('.') and not e.startswith('.#'))
+                    if st['r']['k'] == 'agg' and str(st['r'].get('ak', '')).startswith('Closure:'):
+                        nxt.append(st['r']['ak'][8:])
+                t = blk['t']
+                if t['k'] == 'call':
+                    for a in t['a']:
+                        if op_place(a):
+                            res |= set(e for e in op_place(a)[1:] if isinstance(e, str) and e.startswith('.') and not e.startswith('.#'))
+        todo = [n for n in nxt if F.body(n) is not None]
+        depth -= 1
     return res
